@@ -8,6 +8,7 @@
 -/
 import TypedpyModel.Lemmas.Complete
 import TypedpyModel.Lemmas.Formats
+import TypedpyModel.Lemmas.Decimal
 namespace Typedpy.C02
 open Typedpy
 
@@ -167,6 +168,132 @@ theorem format_example :
         | .error .valueErr => true | _ => false) = true
     ∧ (match validate { reMatch := fmtMatch fun _ _ => false } (.string none none (some ipv4Token)) (.int 5) with
         | .error .typeErr => true | _ => false) = true := by
+  decide
+
+/-! ### DecimalNumber
+
+`vDecimal` (Sem/Decimal.lean) mirrors `DecimalNumber.__set__`: `Decimal(value)`, then the Number checks, the Decimal is
+stored.  `Decimal(str)` is an oracle (`parse`), universally quantified. -/
+
+/-- `Decimal(v)` succeeds exactly on bool / int / float / Decimal and on the strings the `decimal` module parses, and
+    yields the Decimal of the same numeric value -/
+theorem toDecimal_exact (parse : String → Option Q) (v w : PyVal) :
+    toDecimal parse v = .ok w ↔ ∃ q, decValue parse v = some q ∧ w = .dec q := by
+  unfold toDecimal
+  cases h : decValue parse v <;> simp
+  constructor <;> intro h' <;> simp [h']
+
+/-- a failing conversion is a TypeError or a ValueError; a TypeError exactly for the types Decimal cannot be built from -/
+theorem toDecimal_reject (parse : String → Option Q) (v : PyVal) (e : ErrCls)
+    (h : toDecimal parse v = .error e) : decValue parse v = none ∧ e = decErr v ∧ (e = .typeErr ∨ e = .valueErr) := by
+  unfold toDecimal at h
+  cases hd : decValue parse v <;> rw [hd] at h <;> simp at h
+  subst h
+  refine ⟨rfl, rfl, ?_⟩
+  cases v <;> simp [decErr]
+
+/-- **DecimalNumber**: accepted exactly when the value converts to a Decimal whose number satisfies multiplesOf /
+    minimum / maximum / exclusiveMaximum; what is stored is that Decimal -/
+theorem decimal_field_exact (parse : String → Option Q) (o : NumOpts) (v w : PyVal) :
+    vDecimal parse o v = .ok w ↔ ∃ q, decValue parse v = some q ∧ numOk o q = true ∧ w = .dec q := by
+  unfold vDecimal toDecimal
+  cases h : decValue parse v with
+  | none => simp
+  | some q =>
+    simp only [bindE_ok, vNumber, PyVal.asNum]
+    by_cases hn : numOk o q = true
+    · simp [hn]; constructor <;> intro h' <;> simp [h']
+    · simp [hn]
+
+/-- every rejection of a DecimalNumber is a TypeError or a ValueError: a TypeError exactly when the value has a type
+    Decimal cannot be built from; an ill-formed string and a value outside the bounds are ValueErrors -/
+theorem decimal_field_reject (parse : String → Option Q) (o : NumOpts) (v : PyVal) (e : ErrCls)
+    (h : vDecimal parse o v = .error e) :
+    (e = .typeErr ∨ e = .valueErr)
+    ∧ (e = .typeErr ↔ (decValue parse v = none ∧ decErr v = .typeErr)) := by
+  unfold vDecimal toDecimal at h
+  cases hd : decValue parse v with
+  | none =>
+    rw [hd] at h; simp at h; subst h
+    cases v <;> simp [decErr]
+  | some q =>
+    rw [hd] at h
+    simp only [bindE_ok, vNumber, PyVal.asNum] at h
+    by_cases hn : numOk o q = true
+    · simp [hn] at h
+    · simp [hn] at h; subst h; simp
+
+/-- the stored value of a DecimalNumber is a Decimal, `==` to a numeric input -/
+theorem decimal_reads_decimal (parse : String → Option Q) (o : NumOpts) (v w : PyVal)
+    (h : vDecimal parse o v = .ok w) : ∃ q, w = .dec q ∧ (v.asNum.isSome = true → PyVal.pyEq w v = true) := by
+  rcases (decimal_field_exact parse o v w).1 h with ⟨q, hq, _, hw⟩
+  refine ⟨q, hw, ?_⟩
+  intro hn
+  subst hw
+  cases v <;> simp [decValue, PyVal.asNum] at hq hn ⊢
+  all_goals (subst hq; simp [PyVal.pyEq, PyVal.asNum, Q.eq])
+
+/-- a class with DecimalNumber fields accepts exactly the keyword arguments that convert and whose converted form the
+    documented rules of the class (the `number` declarations in place of the DecimalNumber fields) admit; the instance
+    holds the converted values -/
+theorem constructD_complete (parse : String → Option Q) (O : Oracles) (c : ClassOpts)
+    (fields : List (String × FieldDecl)) (defaults : List (String × PyVal)) (decs : List (String × DecPos))
+    (kw kw' : List (String × PyVal)) (hk : convertKw parse decs kw = .ok kw')
+    (ha : admitsKw O (.struct c fields defaults) kw' = true)
+    (hh : O.hookOk (instAttrs (normKw O (.struct c fields defaults) kw')) = true) :
+    constructD parse O (.struct c fields defaults) decs kw = .ok (normKw O (.struct c fields defaults) kw') := by
+  unfold constructD constructH
+  rw [hk, bindE_ok, construct_complete O c fields defaults kw' ha, bindE_ok]
+  simp [hh]
+
+/-- every rejection by such a class is a TypeError or a ValueError (or their common subclass) -/
+theorem constructD_reject (parse : String → Option Q) (O : Oracles) (c : ClassOpts)
+    (fields : List (String × FieldDecl)) (defaults : List (String × PyVal)) (decs : List (String × DecPos))
+    (kw : List (String × PyVal)) (e : ErrCls)
+    (h : constructD parse O (.struct c fields defaults) decs kw = .error e) :
+    e = .typeErr ∨ e = .valueErr ∨ e = .both := by
+  unfold constructD at h
+  cases hk : convertKw parse decs kw with
+  | error e' =>
+    rw [hk] at h; simp at h; subst h
+    rcases c02_convertKw_err parse decs kw e' hk with h1 | h1
+    · exact Or.inl h1
+    · exact Or.inr (Or.inl h1)
+  | ok kw' =>
+    rw [hk, bindE_ok] at h
+    unfold constructH at h
+    cases ha : admitsKw O (.struct c fields defaults) kw'
+    · rcases construct_reject O c fields defaults kw' ha with ⟨e', he, hcls⟩
+      rw [he] at h; simp at h; subst h; exact hcls
+    · rw [construct_complete O c fields defaults kw' ha, bindE_ok] at h
+      split at h
+      · cases h
+      · simp at h; subst h; exact Or.inr (Or.inl rfl)
+
+/-- non-vacuity: a bounded DecimalNumber on int / float / str / Decimal inputs, an ill-formed string, a wrong type; a
+    class with a DecimalNumber array -/
+theorem decimal_example :
+    let parse : String → Option Q := fun s => if s == "1.5" then some ⟨3, 2⟩ else if s == "12" then some ⟨12, 1⟩ else none
+    let o : NumOpts := { min := some ⟨0, 1⟩, max := some ⟨10, 1⟩, mult := none }
+    (match vDecimal parse o (.str "1.5") with | .ok (.dec q) => q.num == 3 && q.den == 2 | _ => false) = true
+    ∧ (match vDecimal parse o (.int 7) with | .ok (.dec q) => q.num == 7 && q.den == 1 | _ => false) = true
+    ∧ (match vDecimal parse o (.float ⟨1, 4⟩) with | .ok (.dec q) => q.num == 1 && q.den == 4 | _ => false) = true
+    ∧ (match vDecimal parse o (.bool true) with | .ok (.dec q) => q.num == 1 | _ => false) = true
+    ∧ (match vDecimal parse o (.str "12") with | .error .valueErr => true | _ => false) = true
+    ∧ (match vDecimal parse o (.str "abc") with | .error .valueErr => true | _ => false) = true
+    ∧ (match vDecimal parse o (.list []) with | .error .valueErr => true | _ => false) = true
+    ∧ (match vDecimal parse o .none with | .error .typeErr => true | _ => false) = true
+    ∧ (match vDecimal parse o (.dict []) with | .error .typeErr => true | _ => false) = true
+    ∧ (match constructD parse { reMatch := fun _ _ => false }
+          (.struct { name := "A", required := ["a"], addl := false, accepts := ["A"] }
+            [("a", .seqOf .list (.number o) { uniq := true }), ("d", .number {})] [])
+          [("a", .items), ("d", .bare)] [("a", .list [.int 1, .str "1.5"]), ("d", .str "12")] with
+        | .ok (.inst "A" [("a", .list [.dec _, .dec _]), ("d", .dec _)]) => true | _ => false) = true
+    ∧ (match constructD parse { reMatch := fun _ _ => false }
+          (.struct { name := "A", required := ["a"], addl := false, accepts := ["A"] }
+            [("a", .seqOf .list (.number o) { uniq := true })] [])
+          [("a", .items)] [("a", .list [.int 1, .float ⟨1, 1⟩])] with
+        | .error .valueErr => true | _ => false) = true := by
   decide
 
 /-! ### non-vacuity: a nested, constrained declaration on which the decision goes both ways -/
